@@ -85,6 +85,7 @@ func main() {
 	r.FloorCount("big_txn_reader_views_overlapping_apply", int64(r.Pick(50, 300)))
 	r.FloorCount("predicate_reader_views_overlapping_apply", int64(r.Pick(150, 1500)))
 	r.FloorCount("range_predicates_over_more_than_4MiB", int64(r.Pick(30, 200)))
+	r.FloorCount("engine_slow_commits", int64(r.Pick(4, 50)))
 	r.FloorCount("engine_txns", int64(r.Pick(100, 1000)))
 	r.Finish()
 }
@@ -870,7 +871,14 @@ func sameMap(a, b map[string]string) bool {
 func runEngine(r *ev.Run, id caseID) {
 	g := gen.New(id.Seed)
 	g.NewPool(6)
-	c, err := cluster.Start(cluster.Opts{Nodes: 1})
+	var stall atomic.Int64 // ms every apply call of the table is held back (a slow commit)
+	c, err := cluster.Start(cluster.Opts{Nodes: 1, Listener: func(node uint64, table string, rev uint64) {
+		if ms := stall.Swap(0); ms > 0 && table == "t" { // one apply call is slow, the following ones are not
+			time.Sleep(time.Duration(ms) * time.Millisecond)
+		} else if ms > 0 {
+			stall.Store(ms)
+		}
+	}})
 	if err != nil {
 		r.Inconclusive("engine start: " + err.Error())
 		return
@@ -884,6 +892,55 @@ func runEngine(r *ev.Run, id caseID) {
 	m := model.NewTable()
 	g.Peek = func(k []byte) ([]byte, bool) { v, ok := m.M[string(k)]; return v, ok }
 	w := witness{Case: id}
+	// slow commits: the transaction is applied (and answered) only after a good part of the caller's
+	// deadline has passed. Each is a toggle (if the key exists delete it, else create it) - executed
+	// once it flips the key, whatever the caller is told; a call that ends in an error is ambiguous
+	// and only re-synchronises the reference.
+	for i, n := 0, r.Pick(6, 20); i < n; i++ {
+		k := []byte(fmt.Sprintf("toggle%d", i%2))
+		req := &pb.TxnRequest{Table: []byte("t"),
+			Compare: []*pb.Compare{{Key: k}},
+			Success: []*pb.RequestOp{{Request: &pb.RequestOp_RequestDeleteRange{RequestDeleteRange: &pb.RequestOp_DeleteRange{Key: k}}}},
+			Failure: []*pb.RequestOp{{Request: &pb.RequestOp_RequestPut{RequestPut: &pb.RequestOp_Put{Key: k, Value: []byte(fmt.Sprintf("v%d", i))}}}}}
+		d := fmt.Sprintf("slow commit (applied after 250 ms, caller's deadline 650 ms): if exists(%s) then delete else put", k)
+		w.Commands = append(w.Commands, d)
+		stall.Store(250)
+		ctx, cancel := context.WithTimeout(context.Background(), 650*time.Millisecond)
+		resp, err := e.Txn(ctx, req)
+		cancel()
+		stall.Store(0)
+		time.Sleep(600 * time.Millisecond) // whatever was proposed has been applied by now
+		rr, rerr := e.Range(context.Background(), &pb.RangeRequest{Table: []byte("t"), Key: k, Linearizable: true})
+		if rerr != nil {
+			r.Inconclusive("read after a slow commit: " + rerr.Error())
+			return
+		}
+		if err != nil {
+			// ambiguous for the caller; the reference follows what the table shows
+			r.Count("engine_slow_commits_answered_with_an_error", 1)
+			if len(rr.Kvs) == 1 {
+				m.M[string(k)] = rr.Kvs[0].Value
+			} else {
+				delete(m.M, string(k))
+			}
+			continue
+		}
+		ok, exp := m.Txn(req.Compare, req.Success, req.Failure)
+		if resp.Succeeded != ok {
+			w.At = d
+			r.Violation("engine-txn-succeeded", fmt.Sprintf("succeeded=%v, model %v @ %s", resp.Succeeded, ok, d), w)
+			return
+		}
+		_ = exp
+		_, present := m.M[string(k)]
+		if present != (len(rr.Kvs) == 1) {
+			w.At = d
+			r.Violation("transaction-executed-more-than-once", fmt.Sprintf("the caller was told succeeded=%v (one toggle of %s: key present afterwards = %v), the table shows present = %v: both branches took effect @ %s", resp.Succeeded, k, present, len(rr.Kvs) == 1, d), w)
+			return
+		}
+		r.Count("engine_slow_commits", 1)
+		r.Count("engine_txns", 1)
+	}
 	for i, n := 0, r.Pick(150, 300); i < n; i++ {
 		t := g.Txn(g.R.Intn(3) == 0)
 		in := &pb.TxnRequest{Table: []byte("t"), Compare: t.Compare, Success: t.Success, Failure: t.Failure}
